@@ -68,6 +68,22 @@ pub mod reqwest {
         pub const CONTENT_TYPE: HeaderName = HeaderName { x: 1 };
         pub const ACCEPT_LANGUAGE: HeaderName = HeaderName { x: 2 };
         pub const USER_AGENT: HeaderName = HeaderName { x: 3 };
+        pub const RETRY_AFTER: HeaderName = HeaderName { x: 4 };
+        pub const CONTENT_LENGTH: HeaderName = HeaderName { x: 6 };
+        pub const CACHE_CONTROL: HeaderName = HeaderName { x: 7 };
+        pub const LINK: HeaderName = HeaderName { x: 8 };
+        pub const DATE: HeaderName = HeaderName { x: 9 };
+        pub const AUTHORIZATION: HeaderName = HeaderName { x: 10 };
+        pub const HOST: HeaderName = HeaderName { x: 11 };
+        pub const CONNECTION: HeaderName = HeaderName { x: 12 };
+        pub const ETAG: HeaderName = HeaderName { x: 13 };
+        pub const EXPIRES: HeaderName = HeaderName { x: 14 };
+        pub const IF_NONE_MATCH: HeaderName = HeaderName { x: 15 };
+        pub const ACCEPT_ENCODING: HeaderName = HeaderName { x: 16 };
+        pub const CONTENT_ENCODING: HeaderName = HeaderName { x: 17 };
+        impl HeaderName {
+            #[verifier::external_body] pub fn as_str(&self) -> (r: &str) ensures r@ == std_header_text(self.x) { unimplemented!() }
+        }
         #[derive(Debug)]
         pub struct InvalidHeaderValue { pub x: u8 }
         #[derive(Debug)]
